@@ -1,0 +1,40 @@
+//go:build verif
+
+package hydra
+
+import (
+	"sync/atomic"
+
+	"github.com/hydraide/hydraide/app/core/hydra/swamp"
+	"github.com/hydraide/hydraide/app/verifhook"
+)
+
+// VerifSlot is a snapshot of one summon wait-slot (verification harness only).
+type VerifSlot struct {
+	ID    int64 // verifhook.ID of the *SwampWaiter
+	Ready bool
+	Count int32
+}
+
+// VerifSummonSlots returns the summon wait-slots currently in the map, by swamp name.
+func VerifSummonSlots(hi Hydra) map[string]VerifSlot {
+	h := hi.(*hydra)
+	out := map[string]VerifSlot{}
+	h.summoningSwamps.Range(func(k, v interface{}) bool {
+		w := v.(*SwampWaiter)
+		w.cond.L.Lock()
+		out[k.(string)] = VerifSlot{ID: verifhook.ID(w), Ready: w.ready, Count: atomic.LoadInt32(&w.count)}
+		w.cond.L.Unlock()
+		return true
+	})
+	return out
+}
+
+// VerifMapEntry returns the instance currently stored in the hydra map for the name (nil if none).
+func VerifMapEntry(hi Hydra, canonicalName string) swamp.Swamp {
+	h := hi.(*hydra)
+	if v, ok := h.swamps.Load(canonicalName); ok {
+		return v.(swamp.Swamp)
+	}
+	return nil
+}
